@@ -330,6 +330,16 @@ TWINS = [
     ('exp-isprismatic-truth', 'C18', 'twist.py', "            return SE3([base.trexp(S * theta) for S in self.data])", "            if self.isprismatic:\n                return SE3(base.transl(self.v * theta))\n            return SE3([base.trexp(S * theta) for S in self.data])", 'R8t', 'Twist3.exp'),
     ('exp-isprismatic-truth-c09', 'C09', 'twist.py', "            return SE3([base.trexp(S * theta) for S in self.data])", "            if self.isprismatic:\n                return SE3(base.transl(self.v * theta))\n            return SE3([base.trexp(S * theta) for S in self.data])", 'R8t', 'Twist3.exp'),
     ('tr2delta-rt2tr-world-frame', 'C13', 'base/transforms3d.py', "        Td = trinv(T0) @ T1", "        Td = base.rt2tr(T1[:3, :3] @ T0[:3, :3].T, T0[:3, :3].T @ (T1[:3, 3] - T0[:3, 3]))", 'R16', 'tr2delta'),
+    # ---- round k
+    ('extend-shares-list', 'C10', 'smuserlist.py', "        super().extend(iterable.data)", "        if len(self.data) == 0:\n            self.data = iterable.data\n        else:\n            super().extend(iterable.data)", 'RL', 'SMUserList.extend'),
+    ('arghandler-mixed-no-none-test', 'C07', 'smuserlist.py', "                assert all(map(lambda x: type(x) == type(self), arg)), 'elements of list are incorrect type'\n                self.data = [x.A for x in arg]", "                self.data = [x.A if type(x) == type(self) else self._import(x, check=check) for x in arg]", 'R5', 'arghandler'),
+    ('contains-layout-by-one-dim', 'C19', 'geom3d.py', "        elif base.ismatrix(x, (3,None)):\n            return [", "        elif base.ismatrix(x, (3,None)) or base.ismatrix(x, (None,3)):\n            if x.shape[1] == 3:\n                x = x.T\n            return [", 'R20t', 'Plucker.contains'),
+    ('pose-mul-layout-by-one-dim', 'C09', 'super_pose.py', "                # SO(n) x matrix\n                return left.A @ right\n", "                # SO(n) x matrix\n                P = right.T if right.shape[1] == left.N else right\n                return left.A @ P\n", 'R20t', 'SMPose.__mul__'),
+    ('rot2-round-under-deg', 'C15', 'base/transforms2d.py', "    theta = base.getunit(theta, unit)\n    ct = base.sym.cos(theta)\n    st = base.sym.sin(theta)\n", "    right = unit == 'deg' and theta % 90 == 0\n    theta = base.getunit(theta, unit)\n    ct = base.sym.cos(theta)\n    st = base.sym.sin(theta)\n    if right:\n        ct, st = round(ct), round(st)\n", 'R10v', 'rot2'),
+    ('uq-mul-multivalued-wrong-class', 'C08', 'quaternion.py', "            return right.__class__(left.binop(right, base.qqmul))", "            if len(left) > 1 or len(right) > 1:\n                return UnitQuaternion(left.binop(right, base.qqmul))\n            return right.__class__(left.binop(right, base.qqmul))", 'R6', 'UnitQuaternion.__mul__'),
+    ('copy-dtype-product-store', 'C01', 'super_pose.py', "        if base.isscalar(left):\n            return right.__mul__(left)\n        else:\n            return NotImplemented", "        def rotate(R, T):\n            RT = T.copy()\n            RT[:2, :] = R @ T[:2, :]\n            return RT\n        if base.isscalar(left):\n            return right.__mul__(left)\n        else:\n            return NotImplemented", 'R11c', 'rotate'),
+    ('tr2delta-fastpath-no-transpose', 'C13', 'base/transforms3d.py', "        Td = trinv(T0) @ T1\n", "        if np.array_equal(T0[:3, :3], T1[:3, :3]):\n            return np.r_[T0[:3, :3] @ (T1[:3, 3] - T0[:3, 3]), 0, 0, 0]\n        Td = trinv(T0) @ T1\n", 'R16', 'tr2delta'),
+    ('twist-mul-sum-arm', 'C02', 'twist.py', "            return Twist3(left.binop(right, lambda x, y: base.trlog(base.trexp(x) @ base.trexp(y), twist=True)))", "            def compose(x, y):\n                if base.iszerovec(np.cross(x[3:], y[3:])):\n                    return x + y\n                return base.trlog(base.trexp(x) @ base.trexp(y), twist=True)\n            return Twist3(left.binop(right, compose))", 'R15', 'Twist3.__mul__'),
 ]
 
 
